@@ -4,6 +4,7 @@ Strings.tla enumerates every string over the abbreviation alphabets up to the bo
 markup tokenizer and the real stylesheet tokenizer (property and value mode) are run on each; every token list
 (type, start, end) or raised error is recorded as a trace and validated by Trace_Tiling.tla.
 """
+import json
 import zlib
 
 import common
@@ -40,6 +41,73 @@ def _chunk(items):
     return out
 
 
+def _project(root, TokenGroup):
+    """the real parser result in the abstract form AbbrSyntax.tla prints (token spans)"""
+    def span(toks):
+        return [] if not toks else [toks[0].start, toks[-1].end]
+    nodes = []
+
+    def walk(n, parent):
+        for ch in n.elements:
+            if isinstance(ch, TokenGroup):
+                nodes.append({'p': parent, 'k': 'g', 'rep': ch.repeat.start if ch.repeat else -1, 'name': [], 'hn': False, 'hv': False, 'ha': False,
+                              'value': [], 'sc': False, 'attrs': []})
+                me = len(nodes)
+            else:
+                attrs = []
+                for a in (ch.attributes or []):
+                    sh = ''
+                    if a.name and a.name[0].start is None:
+                        sh = a.name[0].value + ('*' if a.multiple else '')
+                        nm = []
+                    else:
+                        nm = span(a.name)
+                    attrs.append({'name': nm, 'value': span(a.value), 'sh': sh})
+                nodes.append({'p': parent, 'k': 'e', 'rep': ch.repeat.start if ch.repeat else -1, 'name': span(ch.name), 'hn': ch.name is not None,
+                              'hv': ch.value is not None, 'ha': ch.attributes is not None, 'value': span(ch.value), 'sc': ch.self_close, 'attrs': attrs})
+                me = len(nodes)
+            walk(ch, me)
+    walk(root, 0)
+    return nodes
+
+
+def _model_chunk(vecs):
+    """compare the model's tokens / parse result (AbbrSyntax.tla) with the real tokenizer and parser"""
+    from emmet.abbreviation.tokenizer import tokenize
+    from emmet.abbreviation.parser import parse, TokenGroup
+    from emmet.scanner import ScannerException
+    from emmet.token_scanner import TokenScannerException
+    diff = []
+    for v in vecs:
+        src = _sub(v['s'])
+        exp = v['out']
+        try:
+            toks = tokenize(src)
+            gt = [[t.type, t.start, t.end] for t in toks]
+            terr = -1
+        except ScannerException as ex:
+            gt, terr, toks = None, ex.pos, None
+        except Exception as ex:
+            diff.append(('tokenizer raised ' + type(ex).__name__, src))
+            continue
+        if terr != exp['terr'] or (terr == -1 and gt != [list(x) for x in exp['toks']]):
+            diff.append(('tokens', src))
+            continue
+        if toks is None:
+            continue
+        try:
+            got = {'kind': 'ok', 'pos': -1, 'nodes': _project(parse(toks, {}), TokenGroup)}
+        except TokenScannerException as ex:
+            got = {'kind': 'tokerr', 'pos': -2 if ex.pos is None else ex.pos, 'nodes': []}
+        except Exception as ex:
+            diff.append(('parser raised ' + type(ex).__name__, src))
+            continue
+        want = {'kind': exp['kind'], 'pos': exp['pos'], 'nodes': exp['nodes']}
+        if json.loads(json.dumps(got)) != want:
+            diff.append(('parse tree' if got['kind'] == want['kind'] == 'ok' else 'parse outcome', src))
+    return diff
+
+
 def run(out):
     quick = out.tier == 'quick'
     out.rule = ('one trace per (string generated by Strings.tla, tokenizer mode in markup / css-property / css-value); non-trivial = the '
@@ -53,6 +121,7 @@ def run(out):
         ('css-structural', 'css', dict(constants={'Alphabet': STRUCT_C, 'MaxLen': 10 if quick else 14},
                                        simulate=3 if quick else 45, depth=10 if quick else 14, seed=out.seed + 1)),
     ]
+    _model_comparison(out, quick)
     tid = 0
     for name, lang, kw in insts:
         r = common.run_tlc('Strings', timeout=3000, heap='12g', **kw)
@@ -87,6 +156,29 @@ def run(out):
         sm = sorted(traces, key=lambda t: zlib.crc32(repr((t['src'], t['mode'])).encode()))
         for t in sm[:2]:
             out.sample({'input': t['src'], 'mode': t['mode'], 'kind': t['kind'], 'tokens': t['toks'][:6], 'pos': t['pos']})
+
+
+def _model_comparison(out, quick):
+    """conformance of the specification's own tokenizer + parser (AbbrSyntax.tla) with the real code; differences are
+    reported as diagnostics: the property is the tiling, not a particular token boundary"""
+    insts = [('markup-model-all-symbols', dict(constants={'Alphabet': MARKUP_ALPHA, 'MaxLen': 2 if quick else 3})),
+             ('markup-model-structural', dict(constants={'Alphabet': {"a", "1", "$", "#", "*", "@", "{", "}", "[", "]", "(", ")", ">", "^", ".", "=", "BS", "DQ", " "},
+                                                         'MaxLen': 3 if quick else 4}))]
+    for name, kw in insts:
+        r = common.run_tlc('AbbrSyntaxMC', timeout=3000, heap='12g', **kw)
+        if r.violated:
+            out.add_tlc(name, r)
+            out.violation('spec-invariant %s violated in the tokenizer model' % r.violated, {'instance': name, 'tlc': r.error[:2000]})
+            continue
+        vecs = r.vectors()
+        diff = common.pool_map(_model_chunk, vecs, chunk=1500)
+        fam = {}
+        for what, src in diff:
+            fam.setdefault(what, []).append(src)
+        out.add_tlc(name, r, strings=len(vecs), model_differs_from_code={k: {'count': len(v), 'examples': sorted(v, key=len)[:5]} for k, v in fam.items()})
+        out.evaluations += len(vecs)
+        for k, v in fam.items():
+            out.diag('model-vs-code: ' + k, len(v))
 
 
 def replay(case):
